@@ -63,6 +63,18 @@ Section C10.
     = herm_form K k0 kadd kmul conj n H (embed K k0 kadd kmul m P x).
   Proof. exact (heff_is_restriction K k0 k1 kadd kmul ksub kopp Kring conj conj_0 conj_add conj_mul). Qed.
 
+  (* The lazy (linear operator) path must act as the same restriction: (Heff x)_a = sum_u conj(P[u,a]) (H (P x))_u. *)
+  Theorem C10_heff_matvec_is_restriction : forall n m P H x a,
+    mat_vec K k0 kadd kmul m (heff K k0 kadd kmul conj n P H) x a
+    = sum K k0 kadd n (fun u => kmul (conj (P u a)) (mat_vec K k0 kadd kmul n H (embed K k0 kadd kmul m P x) u)).
+  Proof. exact (heff_matvec K k0 k1 kadd kmul ksub kopp Kring conj). Qed.
+
+  (* Row and column labels of a Hermitian operator swapped = the complex-conjugated operator. *)
+  Theorem C10_swapped_labels_apply_conjugate : forall n M x a,
+    (forall u l, u < n -> l < n -> conj (M l u) = M u l) -> a < n ->
+    mat_vec K k0 kadd kmul n (transpose K M) x a = conj (mat_vec K k0 kadd kmul n M (cj K conj x) a).
+  Proof. exact (transpose_matvec_hermitian K k0 kadd kmul conj conj_0 conj_add conj_mul conj_invol). Qed.
+
   (* Isometric environments preserve the norm (effective norm matrix = 1). *)
   Theorem C10_isometric_environment_preserves_norm : forall n m P x,
     isometry K k0 k1 kadd kmul conj n m P ->
@@ -108,6 +120,8 @@ Print Assumptions C10_energy_network_denotes.
 Print Assumptions C10_dmrg_energy_network_denotes_transpose.
 Print Assumptions C10_dmrg_energy_network_correct_if_symmetric_or_real.
 Print Assumptions C10_heff_is_restriction.
+Print Assumptions C10_heff_matvec_is_restriction.
+Print Assumptions C10_swapped_labels_apply_conjugate.
 Print Assumptions C10_isometric_environment_preserves_norm.
 Print Assumptions C10_variational_bound.
 Print Assumptions C10_local_update_monotone.
